@@ -546,6 +546,9 @@ func factsDispatch(c *factsCtx, outdir string) error {
 	fmt.Fprintf(&b, "/-- shape of `Backend.getUserID` -/\ndef loginShape : LoginShape :=\n  { locked := %s, waitsBeforeAuthorize := %s, successResetsCounter := %s, comparison := %s,\n    armsTimer := %s, timerResetsAndReleases := %s, returnsBlocked := %s }\n\n",
 		leanOptBool(locked), leanOptBool(waitFirst), leanOptBool(successResets), leanStr(cmp), leanOptBool(armsTimer), leanOptBool(timerResets), leanOptBool(blockedErr))
 
+	// (g) where the user of a session comes from (facts_dispatch_login.go)
+	b.WriteString(dfLoginSourceFacts(sess, back))
+
 	b.WriteString("end Gluon.Facts\n")
 	return writeLean(outdir, "Dispatch.lean", b.String())
 }
